@@ -5,3 +5,25 @@
 package index
 
 //@ inline func (a Approximation[T]) Exact() bool
+
+//@ # ---------------------------------------------------------------- timestamp search inside one domain (C01/C10)
+//@ # The index domain holds 8-byte timestamps; SpecStampAt(r, k) is the k-th one (ghost, uninterpreted).
+//@ spec func SpecStampAt(r *domain.Reader, k int64) telem.TimeStamp
+//@ spec func SpecCount(r *domain.Reader) int64 = int64(r.Size()) / 8
+//@ # search: for strictly increasing stamps the approximation brackets the number of samples before
+//@ # ts: exact iff ts is stored (then Lower == Upper == its position); otherwise every stamp up to
+//@ # Lower is before ts and every stamp from Upper on is after it, with Upper == Lower + 1.
+//@ func (i *Domain) search(ts telem.TimeStamp, r *domain.Reader) (a Approximation[int64], err error)
+//@   pragma opaque_func_values read
+//@   requires r != nil && SpecCount(r) <= 1152921504606846975
+//@   requires forall x int64, y int64 :: 0 <= x && x < y && y < SpecCount(r) ==> SpecStampAt(r, x) < SpecStampAt(r, y)
+//@   ensures err == nil ==> -1 <= a.Lower && a.Upper <= SpecCount(r) && (a.Upper == a.Lower || a.Upper == a.Lower + 1)
+//@   ensures err == nil && a.Lower == a.Upper ==> 0 <= a.Lower && a.Lower < SpecCount(r) && SpecStampAt(r, a.Lower) == ts
+//@   ensures err == nil && a.Lower != a.Upper ==> (forall k int64 :: 0 <= k && k <= a.Lower ==> SpecStampAt(r, k) < ts) && (forall k int64 :: a.Upper <= k && k < SpecCount(r) ==> SpecStampAt(r, k) > ts)
+//@   modifies nothing
+//@   # the stamp reader (a function value over io.ReaderAt and an unsafe cast) returns the stored stamp
+//@   assume_after "midTs, err = read(r, byteSize(mid))" err == nil ==> midTs == SpecStampAt(r, mid)
+//@   loop 0 invariant 0 <= start && start <= end + 1 && end < SpecCount(r)
+//@   loop 0 invariant forall k int64 :: 0 <= k && k < start ==> SpecStampAt(r, k) < ts
+//@   loop 0 invariant forall k int64 :: end < k && k < SpecCount(r) ==> SpecStampAt(r, k) > ts
+//@   loop 0 decreases end - start + 1
